@@ -198,3 +198,30 @@ def execute_cancel(case) -> Outcome:
     if base["own_write_parked"]:
         tags.append("own-write-in-flight")
     return Outcome(vio[:4], tags, fired, info={"probe": run.result.get("probe"), "site": phase})
+
+
+def execute_cancel_c12(case) -> Outcome:
+    """The same enumeration judged for C12: the sibling, which nobody cancelled, must not end with a cancellation (the victim's, handed on to it)."""
+    from . import c05
+    from .conc import own_write_parked
+
+    run, world, callers = c05.run_case(case)
+    c0 = callers[0]
+    trigger, phase = c05.classify_trigger(case, world, callers)
+    base = dict(conn=case["kind"], trigger=trigger, site=phase,
+                in_shield=bool(c0.in_shield_at_delivery if c0.delivery_site is not None else c0.in_shield_at_cancel), own_write_parked=own_write_parked(c0))
+    if case.get("runtime") == "trio":
+        base["runtime"] = "trio"
+    vio = []
+    for c in callers[1:]:
+        if getattr(c, "spurious_cancel", None):
+            vio.append(V("C12", "sibling-cancelled", f"{case['kind']}: the victim ({case['shape']}) was cancelled ({case['cancel']['style']}) at its suspension {case['cancel']['at']} ({phase}); "
+                         f"caller {c.id}, which nobody cancelled, ended with a cancellation ({c.spurious_cancel})", **base))
+    fired = c0.cancel_fired_at is not None
+    return Outcome(vio[:2], [case["kind"], "cancel-" + case["cancel"]["style"], "site-" + str(phase), "fired" if fired else "not-reached"], fired)
+
+
+def cancel_cases_h2(tier):
+    from ..topo import is_h2
+
+    return [c for c in cancel_cases(tier) if is_h2(c["kind"]) and c.get("runtime") != "trio"]
